@@ -210,10 +210,38 @@ def _mutdefault(ctx):
                 ),
                 line=arg.lineno,
             )
-            if any(
-                isinstance(n, ast.Return) and isinstance(n.value, ast.Name) and n.value.id == arg.arg
+            returned = any(
+                isinstance(n, ast.Return)
+                and n.value is not None
+                and any(isinstance(x, ast.Name) and x.id == arg.arg for x in ([n.value] if isinstance(n.value, ast.Name) else (list(n.value.values) if isinstance(n.value, ast.BoolOp) else [n.value.body, n.value.orelse] if isinstance(n.value, ast.IfExp) else [])))
                 for n in iter_own(f.node)
-            ):
+            )
+            # the default object handed back to the caller: a caller that binds the result and then mutates it in place
+            # (`args = h(...)`; `args += more` / `.append` / item store) writes through the shared default all the same
+            escaped = None
+            if returned:
+                for g in funcs:
+                    for c in iter_own(g.node):
+                        if isinstance(c, ast.Call) and index.callee(g.mod, c, g) == f.qual and arg.arg not in index.bound_args(g.mod, c, g):
+                            par_ = g.mod.parents.get(c)
+                            if isinstance(par_, (ast.Assign, ast.AnnAssign)):
+                                t_ = par_.targets[0] if isinstance(par_, ast.Assign) else par_.target
+                                if isinstance(t_, ast.Name):
+                                    w_ = _writes_through(g, t_.id)
+                                    aug_ = [x for x in iter_own(g.node) if isinstance(x, ast.AugAssign) and isinstance(x.target, ast.Name) and x.target.id == t_.id]
+                                    if w_ or aug_:
+                                        escaped = (g, (w_ or aug_)[0])
+            if escaped is not None:
+                ctx.ob(
+                    "C10.mutdefault",
+                    f,
+                    "{}={} returned to a caller that mutates it".format(arg.arg, short(d, 30)),
+                    False,
+                    "the mutable default `{}` is returned, and {} binds the result and mutates it in place ({}): the shared default "
+                    "object grows from call to call — the second result contains the first one's elements".format(arg.arg, escaped[0].short, short(escaped[1], 50)),
+                    line=arg.lineno,
+                )
+            if returned and escaped is None:
                 ctx.note(
                     "{}: mutable default `{}` is returned (shared object escapes to callers; no write "
                     "through it found)".format(f.qual, arg.arg)
@@ -591,6 +619,10 @@ def _module_level_target(index, f, root, full):
     ent = f.mod.top.get(root.id)
     if ent is None:
         return None
+    if ent[0] == "def" and isinstance(full, ast.Attribute):
+        # an attribute kept on a module-level function of this module (`helper.flag = True`): it lives as long as the
+        # process, unlike one kept on a nested function, which every call of the owner creates afresh
+        return ent[1]
     if ent[0] == "var":
         return f.mod.name + "." + root.id
     if ent[0] in ("mod", "sym"):
@@ -604,9 +636,10 @@ def _module_level_target(index, f, root, full):
             return r
         if index.module_var(r) is not None:
             return r
-        # attribute store on a function object: f.attr = ...
+        # attribute store on a function object: f.attr = ... — a NESTED function is created afresh by every call of its
+        # owner, a module-level one lives as long as the process: its attributes are module state
         if r in index.funcs and isinstance(full, ast.Attribute):
-            return None
+            return r if index.funcs[r].outer is None and index.funcs[r].cls is None else None
     del chain
     return None
 
@@ -718,3 +751,24 @@ def _nondet(ctx):
             "non-deterministic API {} on a code path of the package".format(e.callee),
         )
     ctx.count("nondeterministic_api_sites", n)
+
+
+def state_slice(ctx, rule, roots, min_reach=5, prefix="state_"):
+    """
+    C10's call-history rules on the functions reachable from `roots`, reported under another property's rule name:
+    no module-level state is written, nothing is memoised, no mutable default is written through (or handed back to
+    a caller that mutates it). Used by the properties whose statement quantifies over several conversions in one
+    process (C01, C02, C04, C06 — like C12 / C13 / C16 / C19 before them).
+    """
+    from ..core import RefGraph
+
+    index = ctx.index
+    graph = RefGraph(index)
+    for r in roots:
+        index.func(r)
+    reach = graph.reachable(list(roots))
+    ctx.count(prefix + "functions", len(reach))
+    ctx.need(len(reach) >= min_reach, "the {} slice shrank to {} functions: call graph no longer resolves it".format(rule, len(reach)))
+    view = ctx.view(lambda w: getattr(w, "qual", None) in reach, rule=rule, prefix=prefix)
+    _modstate(view)
+    _mutdefault(view)
